@@ -236,6 +236,9 @@ func TestVerif_C15_Conversions(t *testing.T) {
 		W, wcls := c15Operand(t, "w")
 		l, lcls := gen.Limbs(t, "l")
 		form := gen.Pick(t, "form", "canonical", "canonical", "montgomery")
+		if lcls == "limbs-near-const" && gen.Uniform(t, "ncform", 0, 1) == 0 {
+			form = "montgomery" // constants are compared in the domain the limbs are stored in
+		}
 		if form == "montgomery" {
 			l.Mul(l, c15RInv)
 		}
